@@ -721,7 +721,7 @@ func c13AbortIfMuted(r *simrt.Run, ok bool, class, sig, format string, a ...inte
 
 type c13Mon struct {
 	s    *Sim
-	prev map[string]subscriptiontypes.Subscription // consumer -> subscription seen after the previous block
+	prev map[string]subscriptiontypes.Subscription // consumer -> newest subscription entry seen at the last observation
 	done map[string]uint64                         // consumer -> month expiry already handled
 	// probesOnly: used by C10/C11 runs to count the interesting situations (renewal failed, advance
 	// purchase activated, ...) without evaluating the C13 oracles
@@ -735,8 +735,8 @@ func (m *c13Mon) checkRefs(where string) {
 	if m.probesOnly {
 		seen := map[string]subscriptiontypes.Subscription{}
 		for _, consumer := range s.K.Subscription.GetAllSubscriptionsIndices(s.Ctx) {
-			if cur := s.c13Current(consumer); cur != nil {
-				seen[consumer] = *cur
+			if nx := s.c13Newest(consumer); nx != nil {
+				seen[consumer] = *nx
 			}
 		}
 		m.prev = seen
@@ -750,10 +750,14 @@ func (m *c13Mon) checkRefs(where string) {
 		var views []*subscriptiontypes.Subscription
 		if cur := s.c13Current(consumer); cur != nil {
 			views = append(views, cur)
-			seen[consumer] = *cur
 		}
-		if nx := s.c13Newest(consumer); nx != nil && (len(views) == 0 || nx.Block != views[0].Block) {
-			views = append(views, nx)
+		if nx := s.c13Newest(consumer); nx != nil {
+			// month boundaries act on the newest entry (an upgrade pending for the next epoch has
+			// already replaced the month timer of the entry still in force)
+			seen[consumer] = *nx
+			if len(views) == 0 || nx.Block != views[0].Block {
+				views = append(views, nx)
+			}
 		}
 		for _, sb := range views {
 			_, ok := s.K.Plans.FindPlan(s.Ctx, sb.PlanIndex, sb.PlanBlock)
